@@ -1007,6 +1007,55 @@ fn gen_case(rng: &mut Rng, idx: usize) -> String {
         };
         alive = push(&mut sys, &mut labels, l);
     }
+    if alive && !hostile && rng.coin(1, 3) {
+        // close choreography: the random part rarely loses exactly the segments of the closing handshake.
+        // Settle, let one or both applications close, and move the FINs and then their ACKs step by step,
+        // losing (or duplicating) each in-flight segment of a phase with probability 1/2 - e.g. both ACKs of
+        // two crossing FINs, after which only retransmitted FINs can release the endpoints.
+        if rng.coin(2, 3) {
+            alive = push(&mut sys, &mut labels, "F 3".into());
+        }
+        let first = rng.below(2);
+        let both_at_once = rng.coin(1, 2);
+        let phases = rng.range(2, 4);
+        if alive {
+            alive = push(&mut sys, &mut labels, format!("C {}", first));
+        }
+        if alive && both_at_once {
+            alive = push(&mut sys, &mut labels, format!("C {}", 1 - first));
+        }
+        for ph in 0..phases {
+            if !alive {
+                break;
+            }
+            for s in [first, 1 - first] {
+                if alive {
+                    alive = push(&mut sys, &mut labels, format!("E {}", s));
+                }
+            }
+            let lose = rng.below(4); // 0: nothing lost, 1: direction 0, 2: direction 1, 3: both directions
+            for d in 0..2u64 {
+                let n = sys.net[d as usize].len();
+                let hit = lose == 3 || lose == d + 1;
+                for _ in 0..n {
+                    if !alive {
+                        break;
+                    }
+                    let l = if hit && rng.coin(3, 4) {
+                        format!("X {} 0", d)
+                    } else if rng.coin(1, 8) {
+                        format!("U {} 0", d)
+                    } else {
+                        format!("D {} 0", d)
+                    };
+                    alive = push(&mut sys, &mut labels, l);
+                }
+            }
+            if alive && ph == 0 && !both_at_once && rng.coin(2, 3) {
+                alive = push(&mut sys, &mut labels, format!("C {}", 1 - first));
+            }
+        }
+    }
     if alive && !hostile {
         // fair loss-free tail, then the liveness check-point
         // the loss-free tail uses ticks longer than the RTO, or much shorter ones with traffic in between
